@@ -27,6 +27,7 @@ RULE += (' Also: group handles closed (the twin stops using the group); random h
          'and the consumer carries on.')
 RULE += (' Also: reflexive keys with one-sided equality (WideKey / NarrowKey) and an unrelated __ne__.')
 RULE += (' Also: items that are None (grouped by equality or an is-None key).')
+RULE += (' Also: the key failing once with AttributeError / LookupError / RuntimeError.')
 ASSUMPTIONS = ["itertools.groupby of the running interpreter is the reference", "keys with reflexive equality only"]
 EXHAUSTIVE_SUBSPACES = "all operation sequences starting with 'adv' of length <= 5 (thorough: 6) over {adv, g-1, g-2, g0} on 12 fixed inputs"
 EXHAUSTIVE = {"quick": False, "thorough": False}
@@ -62,10 +63,11 @@ def cases(tier, seed, shard, nshards):
             # some items ARE None; grouped by equality (no key) or by a key that can take them
             case["keys"] = [k if rng.random() < 0.55 else -1 for k in keys]
             case["key"] = rng.choice([None, None, "isnone", "aisnone"])
-        if case["key"] is not None and keys and rng.random() < 0.12:
+        if case["key"] is not None and keys and rng.random() < 0.2:
             # the key function fails ONCE, for its k-th item, and the consumer carries on with the same operations:
             # itertools.groupby drops the item whose key it could not compute; it must not turn up in any group
-            case["keyfault"] = [rng.randint(1, len(keys)), rng.choice(["ValueError", "KeyError", "TypeError", "Injected", "InjectedBase"])]
+            case["keyfault"] = [rng.randint(1, len(keys)), rng.choice(["ValueError", "KeyError", "TypeError", "Injected", "InjectedBase",
+                                                                       "AttributeError", "AttributeError", "LookupError", "RuntimeError"])]
         yield case
 
 
